@@ -66,8 +66,13 @@ def main():
                 print('         mechanisms reported before the fix:', before)
             out.append({'property': pid, 'commit': commit, 'mechanism': mech, 'detected_on_parent_of_fix': okb,
                         'absent_on_fix_commit': oka, 'mechanisms_on_parent': before})
-    with open(os.path.join(HERE, 'seeded', 'FIXCHECK.json'), 'w') as f:
-        json.dump(out, f, indent=1)
+    path = os.path.join(HERE, 'seeded', 'FIXCHECK.json')
+    merged = {}
+    if os.path.exists(path):
+        merged = {(e['property'], e['commit']): e for e in json.load(open(path))}
+    merged.update({(e['property'], e['commit']): e for e in out})
+    with open(path, 'w') as f:
+        json.dump(sorted(merged.values(), key=lambda e: (e['property'], e['commit'])), f, indent=1)
     return 1 if bad else 0
 
 
